@@ -525,6 +525,10 @@ Inductive bevent :=
 | BGet (t : nat) (capacity : nat) (c : option bufid) (* c: the pooled array sync.Pool hands out *)
 | BAppend (t : nat) (data : list N)                  (* append within capacity, else reallocate *)
 | BResize (t : nat) (n : nat)                        (* sp.Resize(slice, n) *)
+| BResizeKeep (t t' : nat) (n : nat)                 (* buf2 := sp.Resize(buf, n) and the caller KEEPS buf
+                                                        (buf := Get(..); defer Put(buf); buf = Resize(..)):
+                                                        when Resize reallocates, the original slice lives
+                                                        on under the caller's second name t' *)
 | BPut (t : nat).
 
 Definition has_buf (b : bufid) (sl : slice) : bool := sl_buf sl =? b.
@@ -587,6 +591,21 @@ Definition bstep (v : variant) (mincap : nat) (s : bstate) (e : bevent) : option
                       (b_pool s) (S (b_next s))
                       (upd (b_held s) t (Some (mkSl (b_next s) n (Nat.max n (2 * sl_cap sl))))))
       end
+  | BResizeKeep t t' n =>
+      match b_held s t, b_held s t' with
+      | Some sl, None =>
+          if t =? t' then None
+          else if n <? sl_cap sl
+          then Some (mkB (b_heap s) (b_pool s) (b_next s)
+                         (upd (b_held s) t (Some (mkSl (sl_buf sl) n (sl_cap sl)))))
+          else
+            let old := rd (b_heap s (sl_buf sl)) 0 (sl_len sl) in
+            Some (mkB (upd (b_heap s) (b_next s) (wr (fun _ => 0%N) 0 old))
+                      (b_pool s) (S (b_next s))
+                      (upd (upd (b_held s) t (Some (mkSl (b_next s) n (Nat.max n (2 * sl_cap sl)))))
+                           t' (Some sl)))
+      | _, _ => None
+      end
   | BPut t =>
       match b_held s t with
       | None => None
@@ -598,6 +617,7 @@ Definition bstep (v : variant) (mincap : nat) (s : bstate) (e : bevent) : option
 Definition grows (s : bstate) (e : bevent) : Prop :=
   match e with
   | BResize t n => match b_held s t with Some sl => sl_len sl <= n | None => True end
+  | BResizeKeep _ _ _ => False       (* the exact statement is about one slice per caller *)
   | _ => True
   end.
 
@@ -630,19 +650,26 @@ Fixpoint appended (t : nat) (es : list bevent) (acc : list N) : list N :=
   | [] => acc
   | BGet t' _ _ :: es' => appended t es' (if t' =? t then [] else acc)
   | BAppend t' d :: es' => appended t es' (if t' =? t then acc ++ d else acc)
-  | BResize t' n :: es' =>
+  | BResize t' n :: es' | BResizeKeep t' _ n :: es' =>
       appended t es' (if t' =? t then firstn n acc ++ repeat 0%N (n - length acc) else acc)
   | BPut t' :: es' => appended t es' (if t' =? t then [] else acc)
   end.
 
-(* the bytes caller t wrote into its slice since its last Get (from the schedule alone) *)
-Fixpoint written (t : nat) (es : list bevent) (acc : list N) : list N :=
+(* the bytes every caller wrote into its slice since its last Get (from the schedule alone); the
+   second name under which a caller keeps its original slice inherits what the caller wrote *)
+Definition w_after (e : bevent) (W : nat -> list N) : nat -> list N :=
+  match e with
+  | BGet t _ _ => upd W t []
+  | BAppend t d => upd W t (W t ++ d)
+  | BResize _ _ => W
+  | BResizeKeep t t' _ => upd W t' (W t)
+  | BPut t => upd W t []
+  end.
+
+Fixpoint written (es : list bevent) (W : nat -> list N) : nat -> list N :=
   match es with
-  | [] => acc
-  | BGet t' _ _ :: es' => written t es' (if t' =? t then [] else acc)
-  | BAppend t' d :: es' => written t es' (if t' =? t then acc ++ d else acc)
-  | BResize _ _ :: es' => written t es' acc
-  | BPut t' :: es' => written t es' (if t' =? t then [] else acc)
+  | [] => W
+  | e :: es' => written es' (w_after e W)
   end.
 
 (* ---------------------------------------------------------------------------------------- *)
@@ -696,4 +723,39 @@ Fixpoint hexpect (es : list (nat * hop)) (acc : nat -> list N) : list (nat * lis
       | HWrite d => hexpect es' (upd acc t (acc t ++ d))
       | HSum => (t, acc t) :: hexpect es' acc
       end
+  end.
+
+(* ---------------------------------------------------------------------------------------- *)
+(* (6) a one-entry cache kept in TWO separately written cells (key, value) in front of a pure    *)
+(* function (not in the tree: cron's Parse calls time.LoadLocation every time).  A location is     *)
+(* identified with its name, so the right answer for key k is k.                                   *)
+
+Inductive cpc := CStart | CHit | CLoaded | CStoredVal | CRet (v : Z).
+
+Record cstate := mkC { c_key : option Z; c_val : option Z; c_pc : nat -> cpc }.
+
+(* caller t looks up key [keys t]: read the key cell; on a hit read the value cell; on a miss
+   load, store the value cell, store the key cell *)
+Definition cstep (keys : nat -> Z) (s : cstate) (t : nat) : option cstate :=
+  match c_pc s t with
+  | CStart =>
+      match c_key s with
+      | Some k => if (k =? keys t)%Z then Some (mkC (c_key s) (c_val s) (upd (c_pc s) t CHit))
+                  else Some (mkC (c_key s) (c_val s) (upd (c_pc s) t CLoaded))
+      | None => Some (mkC (c_key s) (c_val s) (upd (c_pc s) t CLoaded))
+      end
+  | CHit =>
+      match c_val s with
+      | Some v => Some (mkC (c_key s) (c_val s) (upd (c_pc s) t (CRet v)))
+      | None => Some (mkC (c_key s) (c_val s) (upd (c_pc s) t CLoaded))
+      end
+  | CLoaded => Some (mkC (c_key s) (Some (keys t)) (upd (c_pc s) t CStoredVal))
+  | CStoredVal => Some (mkC (Some (keys t)) (c_val s) (upd (c_pc s) t (CRet (keys t))))
+  | CRet _ => None
+  end.
+
+Fixpoint crun (keys : nat -> Z) (s : cstate) (ts : list nat) : option cstate :=
+  match ts with
+  | [] => Some s
+  | t :: ts' => match cstep keys s t with Some s' => crun keys s' ts' | None => None end
   end.
